@@ -101,6 +101,8 @@ pub(crate) mod zip_writer {
         pub(super) writing_to_central_extra_field_only: bool,
         pub(super) writing_raw: bool,
         pub(super) comment: Vec<u8>,
+        /// Length of the stream when it was opened for append (0 for a new archive)
+        pub(super) appended_stream_len: u64,
     }
 }
 pub use zip_writer::ZipWriter;
@@ -313,6 +315,7 @@ impl<A: Read + Write + io::Seek> ZipWriter<A> {
             .map(|_| central_header_to_zip_file(&mut readwriter, archive_offset))
             .collect::<Result<Vec<_>, _>>()?;
 
+        let appended_stream_len = readwriter.seek(io::SeekFrom::End(0))?;
         let _ = readwriter.seek(io::SeekFrom::Start(directory_start)); // seek directory_start to overwrite it
 
         Ok(ZipWriter {
@@ -324,6 +327,7 @@ impl<A: Read + Write + io::Seek> ZipWriter<A> {
             writing_to_central_extra_field_only: false,
             comment: footer.zip_file_comment,
             writing_raw: true, // avoid recomputing the last file's header
+            appended_stream_len,
         })
     }
 }
@@ -342,6 +346,7 @@ impl<W: Write + io::Seek> ZipWriter<W> {
             writing_to_central_extra_field_only: false,
             writing_raw: false,
             comment: Vec::new(),
+            appended_stream_len: 0,
         }
     }
 
@@ -852,10 +857,30 @@ impl<W: Write + io::Seek> ZipWriter<W> {
         }
         self.finish_file()?;
 
+        let central_start = self.write_central_and_footer()?;
+        let writer = self.inner.get_plain();
+        let footer_end = writer.stream_position()?;
+        if footer_end < self.appended_stream_len {
+            // The archive was opened for append and its old end records reach behind the new
+            // ones (they were longer: ZIP64 records, a longer comment). The stream cannot be
+            // truncated, so blank the stale records and write the directory again such that
+            // it ends where the stream ends; otherwise readers find the stale records first.
+            let new_start = self.appended_stream_len - (footer_end - central_start);
+            writer.seek(io::SeekFrom::Start(central_start))?;
+            io::copy(&mut io::repeat(0).take(new_start - central_start), writer)?;
+            self.write_central_and_footer()?;
+        }
+        Ok(())
+    }
+
+    /// Writes the central directory and the end records at the current position;
+    /// returns the offset of the central directory.
+    fn write_central_and_footer(&mut self) -> ZipResult<u64> {
+        let central_start;
         {
             let writer = self.inner.get_plain();
 
-            let central_start = writer.stream_position()?;
+            central_start = writer.stream_position()?;
             for file in self.files.iter() {
                 write_central_directory_header(writer, file)?;
             }
@@ -900,7 +925,7 @@ impl<W: Write + io::Seek> ZipWriter<W> {
             footer.write(writer)?;
         }
 
-        Ok(())
+        Ok(central_start)
     }
 }
 
